@@ -91,7 +91,7 @@ ALL_VARIANTS = [(d, a, i) for d in (True, False) for a in (False, True) for i in
 
 class C02(Check):
     pid = "C02"
-    lean_modules = ["MTProps.C02"]
+    lean_modules = ["MTProps.C02", "MTProps.CodeVertices", "MTProps.CodeAffinity"]
 
     def body(self):
         rng = self.rng
@@ -218,7 +218,7 @@ class C02(Check):
 
 class C06(Check):
     pid = "C06"
-    lean_modules = ["MTProps.C06"]
+    lean_modules = ["MTProps.C06", "MTProps.CodeLikelihood"]
 
     def body(self):
         rng = self.rng
@@ -349,7 +349,7 @@ def w_symmetric(st, K, L):
 
 class C01(TrajCheck):
     pid = "C01"
-    lean_modules = ["MTProps.C01", "MTProps.C01NonVacuity"]
+    lean_modules = ["MTProps.C01", "MTProps.C01NonVacuity", "MTProps.CodeVertices", "MTProps.CodeAffinity", "MTProps.CodeLikelihood"]
 
     def body(self):
         n = 120 if self.tier == "quick" else 2000
@@ -408,7 +408,7 @@ class C01(TrajCheck):
 
 class C09(TrajCheck):
     pid = "C09"
-    lean_modules = ["MTProps.C09"]
+    lean_modules = ["MTProps.C09", "MTProps.CodeVertices", "MTProps.CodeAffinity"]
 
     def body(self):
         n = 120 if self.tier == "quick" else 1500
